@@ -137,7 +137,9 @@ class C15(RailsProp):
         slow = 100.0 if sc.get("slow_peer") and only is None else 1.0
 
         def llm_lat(call):
-            return d.choice(CONC_GRID, "llm", call.conv, call.task, sum(1 for x in world.llm_world.calls if x.conv == call.conv)) * slow
+            # keyed by the conversation and the number of the call within it - NOT by the task label, which is read from a context
+            # variable that single-call streaming leaves unset (the label then is whatever an earlier call left in the context)
+            return d.choice(CONC_GRID, "llm", call.conv, sum(1 for x in world.llm_world.calls if x.conv == call.conv)) * slow
 
         def act_lat(kind, name, n):
             return d.choice(SHORT_GRID, "act", llm_peer.conv_var.get(), name, n % 7)
@@ -161,6 +163,8 @@ class C15(RailsProp):
             results = {}
             quiescence = []
             in_flight = {"n": 0}
+            late_pushes = []
+            world.late_pushes = late_pushes
 
             async def serve_turn(c, t, state_box, msgs):
                 turn = sc["convs"][c]["turns"][t]
@@ -173,6 +177,15 @@ class C15(RailsProp):
                     from nemoguardrails.streaming import StreamingHandler
 
                     handler, got = StreamingHandler(), []
+                    # once its own request has returned, nobody pushes into this handler any more - least of all another conversation
+                    real_push = handler.push_chunk
+
+                    async def spy_push(chunk, *a, _h=handler, _c=c, _t=t, _real=real_push, **kw):
+                        if getattr(_h, "_sim_request_done", False):
+                            late_pushes.append((_c, _t, llm_peer.conv_var.get(), chunk if chunk is None or isinstance(chunk, str) else repr(chunk)[:60]))
+                        return await _real(chunk, *a, **kw)
+
+                    handler.push_chunk = spy_push
 
                     async def consume(h=handler, g=got):
                         async for piece in h:
@@ -189,6 +202,8 @@ class C15(RailsProp):
                 else:
                     st, res = await world.generate("c%d" % c, messages=[{"role": "user", "content": turn["text"]}], state=state_box.get("s") or {}, options=opts)
                 in_flight["n"] -= 1
+                if handler is not None:
+                    handler._sim_request_done = True
                 if in_flight["n"] == 0:
                     quiescence.append((round(clock(), 6), world.llm._params()))
                 streamed = None
@@ -293,6 +308,10 @@ class C15(RailsProp):
             out.probe("twin_prefix_conversations")
         if sc.get("streaming") and sum(1 for cv in sc["convs"] if cv.get("stream")) >= 1:
             out.probe("streamed_conversations")
+        # a streaming handler belongs to one request: pushes after that request returned come from somebody else's request
+        for (c0_, t0_, by, chunk) in getattr(world, "late_pushes", [])[:1]:
+            out.violate("stream-received-foreign-tokens", "%s:%s" % (cc, sc["family"]),
+                        "the streaming handler of conversation %d turn %d received %r after its request had returned, while a request of %s was being served (%d such pushes)" % (c0_, t0_, chunk, by, len(world.late_pushes)))
         # per conversation reference on a fresh instance
         per_conv_calls = {}
         for cl in calls:
@@ -321,8 +340,9 @@ class C15(RailsProp):
                     break
             gp = [(x.task, x.prompt if isinstance(x.prompt, str) else repr(x.prompt)) for x in got_calls]
             rp = [(x.task, x.prompt if isinstance(x.prompt, str) else repr(x.prompt)) for x in ref_calls]
-            if gp != rp:
-                k = next((i for i, (a, b) in enumerate(zip(gp, rp)) if a != b), min(len(gp), len(rp)))
+            # the prompts are compared, not the task labels (instrumentation: the label of an unlabelled call is inherited from the context)
+            if [p_ for _t, p_ in gp] != [p_ for _t, p_ in rp]:
+                k = next((i for i, (a, b) in enumerate(zip(gp, rp)) if a[1] != b[1]), min(len(gp), len(rp)))
                 why = "cache-collision" if coll else twin if twin else ("overlap" if any(x.n in overlapped_calls for x in got_calls) else "no-overlap")
                 a = gp[k] if k < len(gp) else None
                 b = rp[k] if k < len(rp) else None
@@ -330,8 +350,12 @@ class C15(RailsProp):
                             "conversation %d: LLM call %d on the shared instance was %s, alone it is %s%s"
                             % (c, k, _brief_call(a), _brief_call(b), ("; colliding cache keys: %r" % (coll[0][0],)) if coll else ""))
             else:
+                # a streamed single-call LLM call is started as a task inside its llm_params block and may outlive the block (the block
+                # ends when the first two lines have arrived): what the parameters are later in such a call depends on the token timing
+                # of the conversation itself, alone as well - only the parameters the call is STARTED with are compared there
+                phases = ("params_enter",) if (sc.get("streaming") and sc["convs"][c].get("stream")) else ("params_enter", "params_mid", "params_exit")
                 for k, (x, y) in enumerate(zip(got_calls, ref_calls)):
-                    for phase in ("params_enter", "params_mid", "params_exit"):
+                    for phase in phases:
                         gx, ry = getattr(x, phase, None), getattr(y, phase, None)
                         if gx != ry and gx is not None and ry is not None:
                             # the shared LLM object stays polluted once two requests were in flight together
